@@ -2650,6 +2650,47 @@ impl Melda {
     }
 }
 
+/// Read-only accessors for the verification harness (only with `--cfg melda_verif`)
+#[cfg(melda_verif)]
+impl Melda {
+    /// Returns the load status of every known delta block
+    pub fn verif_block_status(&self) -> Vec<(String, &'static str)> {
+        self.deltas
+            .read()
+            .unwrap()
+            .iter()
+            .map(|(id, d)| {
+                let s = match d.read().unwrap().status {
+                    Status::Pending => "pending",
+                    Status::Ready => "ready",
+                    Status::Applied => "applied",
+                    Status::Blocked => "blocked",
+                };
+                (id.to_string(), s)
+            })
+            .collect()
+    }
+
+    /// Dumps the revision tree of an object as (revision, parent, staged) triples
+    pub fn verif_dump_tree(&self, uuid: &str) -> Option<Vec<(String, Option<String>, bool)>> {
+        let docs = self.documents.read().unwrap();
+        let rt = docs.get(uuid)?.lock().unwrap();
+        let mut v: Vec<(String, Option<String>, bool)> = rt
+            .get_revisions()
+            .iter()
+            .map(|(r, e)| {
+                (
+                    r.to_string(),
+                    e.get_parent().as_ref().map(|p| p.to_string()),
+                    e.is_staging(),
+                )
+            })
+            .collect();
+        v.sort();
+        Some(v)
+    }
+}
+
 #[cfg(test)]
 mod tests {
 
